@@ -4,7 +4,7 @@ import json
 import os
 
 import vflib
-from vflib import trace_stage, world_stage, mc_stage, apalache_stage, log
+from vflib import trace_stage, world_stage, mc_stage, apalache_stage, bigtrace_stage, log
 
 CHECKS = {}
 LEVELS = {}
@@ -172,6 +172,23 @@ def selftest(args):
             ok = False
             for m in sorted(missed)[:3]:
                 log("   not rejected: " + vflib.canon(vflib.shorten(corrupted[m - 1], 500)))
+    # large magnitudes (Apalache as the trace checker): one recorded value changed by one in every fifth record
+    tr = os.path.join(wd, "big.ndjson")
+    vflib.run_driver("big", tr, "quick", 1)
+    evs = vflib.read_events(tr)[:40]
+    idx = set()
+    for i, e in enumerate(evs):
+        if i % 5 == 0:
+            key = "sbf" if e["op"] == "big_supply" else "eta"
+            e["out"][key][-1] += 1
+            idx.add(i)
+    sub = os.path.join(wd, "big")
+    os.makedirs(sub)
+    bad, _ = vflib.big_check(sub, evs, chunk=10, max_rounds=4)
+    log("selftest big     : %3d records, %2d corrupted, %2d of them refuted by Apalache, %d missed, %d spurious" % (
+        len(evs), len(idx), len(idx & set(bad)), len(idx - set(bad)), len(set(bad) - idx)))
+    if set(bad) != idx:
+        ok = False
     # world models: a claim lowered by one must be refuted (Safe), a claim raised by one must lose its witness (C18)
     for fam, spec, cfgf, slim, key, extra in (("systems", "MCSched.tla", "MCSched.cfg", ("id", "policy", "tasks", "supply"), "tasks",
                                                ["--families", "fp,fifo", "--exact", "1", "--nsys", "30", "--no-core", "1"]),
@@ -226,6 +243,9 @@ def c09(run):
     # unbounded, symbolic: the closed form is 0 at 0 / monotone / 1-Lipschitz, the library's arithmetic (transcribed) equals it,
     # the specialised service_time formulas are its exact inverse, deadline = period and budget = period degenerate as stated
     apalache_stage(run, "unbounded-obligations", "SupplyProofs.tla", ["Shape", "LibAgrees", "Equivalences", "Inverse"])
+    # large magnitudes (periods and windows up to 2^60, far beyond TLC's integers and beyond 2^53 where floating-point
+    # shortcuts stop being exact): recorded values against the closed form, decided by Apalache over unbounded integers
+    bigtrace_stage(run, "large-magnitudes", "big", extra=["--only", "supply"])
     # R1: every placement of the budget (reservation automaton), every window position and length:
     # never less service than the recorded table claims, and the table is attained at every length
     world_stage(run, "placements", "resv", "MCReservation.tla", "MCReservation.cfg", slim=("id", "Q", "D", "P", "sbf"),
@@ -251,6 +271,9 @@ def c10(run):
     # unbounded, symbolic: the Periodic / Sporadic closed form is 0 at 0, monotone, sub-additive, monotone in the jitter,
     # and delaying by j2 equals observing a window longer by j2
     apalache_stage(run, "unbounded-obligations", "ArrivalProofs.tla", ["Shape", "SubAdditive", "Jitter"])
+    # periods, jitters and windows up to 2^59 (beyond TLC's integers and beyond 2^53): recorded number_arrivals / steps /
+    # scalar request bound against the closed form, decided by Apalache over unbounded integers
+    bigtrace_stage(run, "large-magnitudes", "big", extra=["--only", "eta"])
     # R1: explicit event generators (arrivals >= T apart + per-event delay; delta-min prefixes; delayed copies;
     # superposition), every window position and length: never more events than the recorded table claims;
     # for Periodic / Sporadic the table is attained at every window length
@@ -272,7 +295,8 @@ def c11(run):
 
 def _c11_symbolic(run):
     # unbounded, symbolic: the closed-form steps of Sporadic / Periodic are exactly the increase points of the closed-form bound
-    apalache_stage(run, "unbounded-obligations", "ArrivalProofs.tla", ["StepsExact"])
+    apalache_stage(run, "unbounded-obligations", "ArrivalProofs.tla", ["StepsExact", "NextStepExact"])
+    bigtrace_stage(run, "large-magnitudes", "big", extra=["--only", "eta"])
 
 
 @check("C16")
@@ -468,7 +492,7 @@ def c04(run):
                        "reservation (Sched.tla) against rta_event_source; non-trivial = some bound exceeds the own WCET")
     run.assumptions += ROS_ASSUME
     world_stage(run, "executor", "ros2sys", "MCRos2Exec.tla", "MCRos2Exec.cfg", slim=("id", "supply", "cbs"),
-                extra=["--family", "ecrts19", "--nsys", _nsys(run, 1400, 14000)])
+                extra=["--family", "ecrts19", "--nsys", _nsys(run, 1400, 9000)])
     world_stage(run, "event-source", "systems", "MCSched.tla", "MCSched.cfg",
                 extra=["--families", "es", "--nsys", _nsys(run, 250, 3000)])
     _ros_equational(run, "0,1,2,3")
@@ -482,9 +506,9 @@ def c05(run):
                        "priority order consistent with the known priorities; non-trivial = some bound exceeds the own WCET")
     run.assumptions += ROS_ASSUME
     world_stage(run, "executor", "ros2sys", "MCRos2Exec.tla", "MCRos2Exec.cfg", slim=("id", "supply", "cbs"),
-                extra=["--family", "rtss21", "--nsys", _nsys(run, 900, 9000)])
-    # growth beyond the property's wording: two-callback chains inside rr workloads, end-to-end bound of
-    # rr::rta_subchain([s, k]) with the conservative propagation of the source's arrival curve
+                extra=["--family", "rtss21", "--nsys", _nsys(run, 900, 4000)])
+    # growth beyond the property's wording: two-callback chains inside rr / bw workloads, end-to-end bound of
+    # rr::rta_subchain([s, k]) resp. bw::rta_subchain with the conservative propagation of the source's arrival curve
     world_stage(run, "rr-chains", "ros2sys", "MCRos2Exec.tla", "MCRos2Exec.cfg", slim=("id", "supply", "cbs"),
                 extra=["--family", "rrchain", "--nsys", _nsys(run, 1500, 25000)])
     _ros_equational(run, "4,5")
@@ -597,9 +621,22 @@ def _event_key(e):
     return vflib.canon({k: v for k, v in e.items() if k not in ("ans", "res", "out", "session_failed")})
 
 
+def _tlc_safe(o):
+    """TLC's integers are 32-bit: larger recorded values travel as decimal strings (C20 only compares them)"""
+    if isinstance(o, bool):
+        return o
+    if isinstance(o, int):
+        return o if abs(o) < 2 ** 31 else "n:%d" % o
+    if isinstance(o, list):
+        return [_tlc_safe(x) for x in o]
+    if isinstance(o, dict):
+        return {k: _tlc_safe(v) for k, v in o.items()}
+    return o
+
+
 def _event_out(e):
     if "out" in e:
-        return e["out"]
+        return _tlc_safe(e["out"])
     return {k: e[k] for k in ("ans", "res") if k in e}
 
 
@@ -608,14 +645,16 @@ def c20(run):
     run.cov["rule"] = ("total events: every driver of the framework (model queries, step iterators, cost models, request bounds, supplies, "
                        "fixed-point search, the nine + six analyses on random well-formed inputs, derived curves, extrapolation, cache "
                        "histories) plus a corner-case driver (Never, empty interference, zero blocking, limit 1, D<C, subchain = whole "
-                       "workload, budget = period, step-less search spaces) is run by a dev build (debug assertions + overflow checks) and "
+                       "workload, budget = period, step-less search spaces, window lengths / demands up to 2^60 and at the top of the u64 range) is run by a dev build (debug assertions + overflow checks) and "
                        "by a release build of the harness on identical seeded inputs; the two traces are joined call by call and TLC accepts a "
                        "call iff both builds returned (no panic, no hang) the same value; non-trivial = the dev outcome is not Ok(0)/empty; "
                        "distinct = canonical JSON of the input")
     run.assumptions += ["well-formed inputs as in DESIGN.md §3.2", "hang = no return within the watchdog (20 s; corner driver 6 s)"]
     drivers = [("corner", ["--watchdog-ms", "6000"]), ("eta", []), ("steps", []), ("cost", []), ("cost_trace", []), ("demand", []),
                ("supply", []), ("search", []), ("rta", []), ("ros2", []), ("c12", []), ("c13", []),
-               ("cache", ["--kind", "arrival"]), ("cache", ["--kind", "wcet"])]
+               ("cache", ["--kind", "arrival"]), ("cache", ["--kind", "wcet"]),
+               # closed-form queries at magnitudes up to 2^60, and at the very top of the u64 range (overflow checks)
+               ("big", []), ("extreme", [])]
     wd = run.sub("profiles")
     merged = os.path.join(wd, "trace.ndjson")
     full = []
